@@ -39,17 +39,23 @@ class time_limit:
 
     def __enter__(self):
         import signal
+        import time
 
         def h(sig, frm):
             raise _Timeout()
 
+        self.t0 = time.monotonic()
+        self.outer = signal.getitimer(signal.ITIMER_REAL)[0]  # an enclosing cap keeps running
         self.old = signal.signal(signal.SIGALRM, h)
-        signal.setitimer(signal.ITIMER_REAL, self.s)
+        signal.setitimer(signal.ITIMER_REAL, min(self.s, self.outer) if self.outer > 0 else self.s)
 
     def __exit__(self, *a):
         import signal
+        import time
         signal.setitimer(signal.ITIMER_REAL, 0)
         signal.signal(signal.SIGALRM, self.old)
+        if self.outer > 0:
+            signal.setitimer(signal.ITIMER_REAL, max(self.outer - (time.monotonic() - self.t0), 1e-3))
         return False
 
 
@@ -693,16 +699,23 @@ def sympy_to_casadi_dir(ctx, n_trees, depth):
         f_dict = {n: F_IMPL[n][0] for n in fnames} if nf else None
         repl = {sp.Function(n): F_IMPL[n][1] for n in fnames}
         gen = SPGen(rng, X, funcs)
-        e = gen.expr(depth)
-        if not getattr(e, "free_symbols", None):
-            continue
         cse = rng.random() < 0.25
-        if cse:
-            sub = gen.expr(2)
-            e = e + sub * sp.sin(sub) + sub ** 2
         pts = [rng.normal(size=3) * rng.choice([0.5, 1.5]) for _ in range(4)]
-        ctx.count("s2c_trees")
-        st, det, _ = s2c_agree(stc, e, names, pts, f_dict, repl, cse=cse)
+        try:
+            # building a tree already makes SymPy evaluate numeric sub-trees (roots of huge rationals can take hours: the
+            # thorough tier sat in Pow.__new__ for two hours): generation and comparison of one tree are capped together
+            with time_limit(90.0):
+                e = gen.expr(depth)
+                if not getattr(e, "free_symbols", None):
+                    continue
+                if cse:
+                    sub = gen.expr(2)
+                    e = e + sub * sp.sin(sub) + sub ** 2
+                ctx.count("s2c_trees")
+                st, det, _ = s2c_agree(stc, e, names, pts, f_dict, repl, cse=cse)
+        except _Timeout:
+            ctx.count("s2c_tree_time_cap")
+            continue
         ctx.count("s2c_" + st + ("_cse" if cse else ""))
         if st in ("ok", "bad"):
             ctx.tally("sympy_to_casadi:tree")
